@@ -13,7 +13,7 @@ P = {
          "Bounded depth and finite menus (constants, bit indices, RNG scripts). Trusted: rustc, num-bigint, reference model.",
          "DESIGN.md 5 (C07)"),
  "C12": (True, GRID + "; all ordered pairs over FQ2 = S x S with Montgomery-extreme components",
-         "Every ordered pair of the FQ2 alphabet through + - * == and commutativity, operator forms, associativity/distributivity triples, every unary observation, and agreement of the internal squaring with multiplication observed through G2::new(s^2 x, s^3 y, s) for every s; compared with pair arithmetic over BigUint (u^2 = -2); lazy-reduction carry classes u4 in {0,1} both required non-empty.",
+         "Every ordered pair of the FQ2 alphabet through + - * == and commutativity, operator forms, associativity/distributivity triples, every unary observation, and agreement of the internal squaring with multiplication observed through G2::new(s^2 x, s^3 y, s) for every s; compared with pair arithmetic over BigUint (u^2 = -2); lazy-reduction bands (carry limb x number of subtractions) all required non-empty.",
          "Holds on the enumerated alphabet only. Trusted: rustc, num-bigint, reference model.",
          "DESIGN.md 5 (C12)"),
  "C14": (True, GRID + "; squares, non-residues, both axes of Fq2 on both sides of q/2, every small x as a compressed G1 encoding",
@@ -33,7 +33,7 @@ P = {
          "Enumerated scalar alphabet only. The textbook implementation is bound to the standard by its published vectors.",
          "DESIGN.md 5 (C02), Appendix A"),
  "C03": (True, GRID + "; all concrete values^2 x three entry points; all call sequences on a prepared value up to a depth",
-         "All representatives (8 non-identity kinds, 8 identity kinds) of every discrete log on both sides through all three entry points give byte-identical results equal to the model value; every sequence of pairing(&P_i) calls (with optional clone) up to the depth bound on one prepared value returns the model value at every step and leaves the prepared value's Debug rendering unchanged.",
+         "All representatives (8 non-identity kinds, 8 identity kinds) of every discrete log on both sides through all three entry points give byte-identical results equal to the model value; every sequence of pairing(&P_i) calls (with optional clone) up to the depth bound on one prepared value returns the model value at every step and leaves the prepared value's Debug rendering unchanged; every ordered pair of calls of the stateless entry points, run back to back on one thread, returns the model value (hidden state across calls).",
          "Enumerated alphabet, bounded call depth.",
          "DESIGN.md 5 (C03)"),
  "C11": (True, GRID + "; Gamma^2 products and equalities, exponent-law quadruples, every small exponent",
@@ -41,11 +41,11 @@ P = {
          "Enumerated alphabet only.",
          "DESIGN.md 5 (C11)"),
  "C16": (True, BFS + "; register machines (A, B : G ; s : Fr) over G1 and G2, then the full product of reached values through the pairing entry points",
-         "Every operation sequence up to the depth bound over 25 operations (add, sub, neg, scalar multiplication on either side, normalize, affine and encode/decode round trips, swap, resets, scalar updates) on the real code; states de-duplicated on their exact concrete content plus the tracked discrete logs; in every state the denoted points, is_zero, == in both orders, all three encodings and the scalar register are exactly those predicted from the discrete logs; every reached G1 value x every reached G2 value x 3 entry points gives g^(dd').",
+         "Every operation sequence up to the depth bound over 25 operations (add, sub, neg, scalar multiplication on either side, normalize, affine and encode/decode round trips, swap, resets, scalar updates) on the real code; states de-duplicated on their exact concrete content plus the tracked discrete logs; in every state the denoted points, is_zero, == in both orders, all three encodings and the scalar register are exactly those predicted from the discrete logs; every reached G1 value x every reached G2 value x 3 entry points gives g^(dd'); plus a long seeded program with arbitrary and boundary scalars and every single-position deviation from it (deviation-bounded histories); the G1 machine is explored a second time by stateright's BFS checker and the unique-state counts must agree.",
          "Bounded depth; scalar alphabet {0,1,2,r-1} and what the machine derives from it. Trusted: rustc, num-bigint, reference model.",
          "DESIGN.md 5 (C16)"),
  "C17": (True, GRID + "; FQ4^2, FQ12^2 through the cfg-guarded hook module, every supported Frobenius code, every addition-chain exponent, every small exponent, both final exponentiations, both Miller loops",
-         "Internal tower types driven through an add-only hook module: mul, sparse mul (within precondition), squared, inverse, Frobenius, pow, final_exponentiation and final_exp on boundary / sparse / subfield / unitary / cyclotomic / generic elements against flat polynomial arithmetic in F_q[w]/(w^12+2) with Frobenius and final exponentiation by generic powering; lazy-reduction carry classes u4 in {0,1,2} all required non-empty; the 4 Miller-loop x final-exponentiation combinations equal the reference pairing.",
+         "Internal tower types driven through an add-only hook module: mul, sparse mul (within precondition), squared, inverse, Frobenius, pow, final_exponentiation and final_exp on boundary / sparse / subfield / unitary / cyclotomic / generic elements against flat polynomial arithmetic in F_q[w]/(w^12+2) with Frobenius and final exponentiation by generic powering; lazy-reduction carry-limb x subtraction bands all required non-empty; internal Fq helpers (double, triple, squared, div2) on all of FP(q) incl. stored-value specials; the 4 Miller-loop x final-exponentiation combinations equal the reference pairing.",
          "Needs the hook module (cfg john_yu_sm9_core_verif). Enumerated alphabet only.",
          "DESIGN.md 5 (C17), 7"),
  "C18": (True, "bounded-exhaustive exploration of the union of the quick alphabets in two build configurations (release; release + debug assertions + overflow checks): oracle-free transcript comparison case by case, plus the oracle-carrying checks re-run in the second configuration",
